@@ -7,11 +7,16 @@ from .common import B
 from . import bf3lib as L
 
 
-def bf3_failed_then_good(rec, r, wd, n=6):
+def bf3_failed_then_good(rec, r, wd, n=6, enc=False):
     """Writes refused for an over-long directory entry in component 0 / 1 / 2 (OverflowError), then: the same object repaired
     and written, and an unrelated fresh file written - all read back."""
     for j in range(n):
         comps = [L.gen_plain_comp(r) for _ in range(3)]
+        if enc:
+            # session-key encrypted components before and after the failing entry: the repaired write must still encrypt them
+            for at in (0, 2):
+                blob = bytes(r.randrange(1, 256) for _ in range(r.choice([9, 16, 23])))
+                comps[at] = L.mk_comp({0xC3: b"\x03", 0xC2: b"\x02"}, blob, len(blob), True)
         bad_at = j % 3
         f = L.Bf3File({"h": "x"}, comps)
         kind = j % 2
@@ -71,3 +76,17 @@ def container_error_paths(rec, r, rec_wrap, rec_unwrap, B2):
                 pass
             p = rand(17)
             rec_unwrap(rec, enc, spec, rec_wrap(rec, enc, spec, p))
+
+
+def bf3_large(rec, r, wd, sizes=(300, 4128), enc=True, read=True):
+    """Payloads longer than 256 and 4096 bytes (session-key encrypted and clear): byte-exact layout and read-back."""
+    for n in sizes:
+        for e in ((True, False) if enc else (False,)):
+            blob = bytes(r.randrange(1, 256) for _ in range(n))
+            f = L.Bf3File({}, [L.mk_comp({0xC3: b"\x03", 0xC2: b"\x02"} if e else {0x10: b"\x01"}, blob, len(blob), e)])
+            key = L.gen_key(r)
+            L.rec_to_binary(rec, f, 5, key, _cost=max(1, n // 16))
+            if read:
+                text = L.rec_write(rec, f, key, False, wd)
+                rec.events[-1]["_cost"] = max(1, n // 16)
+                L.rec_read(rec, text, key, True, False, wd, auth=rec.last_written, _cost=max(1, n // 8))
